@@ -1039,6 +1039,30 @@ pub fn rewrite_body(slot: &SlotSpec, found: &Found, retarget: &[(String, String)
     for st in &block.stmts {
         cx.visit_stmt(st);
     }
+    // N17: a `loop` that is the tail expression of the body and exits with `break VALUE`: each such break
+    // (not inside a nested loop or closure) becomes `return VALUE` - the value of the loop is the value of the function
+    if found.lifted.is_none() {
+        if let Some(syn::Stmt::Expr(syn::Expr::Loop(l), None)) = block.stmts.last() {
+            struct B { hits: Vec<std::ops::Range<usize>> }
+            impl<'ast> Visit<'ast> for B {
+                fn visit_expr_break(&mut self, b: &'ast syn::ExprBreak) {
+                    if b.expr.is_some() && b.label.is_none() {
+                        self.hits.push(b.break_token.span().byte_range());
+                    }
+                }
+                fn visit_expr_closure(&mut self, _: &'ast syn::ExprClosure) {}
+                fn visit_expr_for_loop(&mut self, _: &'ast syn::ExprForLoop) {}
+                fn visit_expr_while(&mut self, _: &'ast syn::ExprWhile) {}
+                fn visit_expr_loop(&mut self, _: &'ast syn::ExprLoop) {}
+            }
+            let mut b = B { hits: vec![] };
+            b.visit_block(&l.body);
+            for r in b.hits {
+                cx.replace(r.clone(), "return");
+                cx.note("N17", r.start, "break VALUE", "return VALUE (the loop is the tail expression of the function)");
+            }
+        }
+    }
     // hints at structural anchors
     let open = block.brace_token.span.open().byte_range().end;
     let close = block.brace_token.span.close().byte_range().start;
